@@ -10,6 +10,9 @@ import subprocess
 import sys
 import tempfile
 import time
+import signal
+if signal.getsignal(signal.SIGINT) in (signal.SIG_IGN, None):
+    signal.signal(signal.SIGINT, signal.default_int_handler)   # (background jobs inherit SIGINT ignored; the suite sends SIGINTs)
 
 ROOT = os.path.dirname(os.path.dirname(os.path.abspath(__file__)))
 args = sys.argv[1:]
@@ -47,9 +50,18 @@ try:
     if a.returncode != 0:
         print("patch does not apply:", a.stderr)
         sys.exit(2)
-    t = sh("cd %s && PYTHONPATH=%s/src /venv/bin/python -m pytest -q -p no:cacheprovider 2>&1 | tail -1" % (repo, repo))
-    res["suite"] = t.stdout.strip()
-    res["demo_mutant_rc"] = demo_rc(repo)
+    # the suite and the demonstration are timing-sensitive: they run while no check of another seeded run
+    # is loading the machine (exclusive lock; the checks below hold it shared)
+    import fcntl
+    lk = open("/tmp/vh-seed.lock", "w")
+    fcntl.flock(lk, fcntl.LOCK_EX)
+    try:
+        t = sh("cd %s && PYTHONPATH=%s/src /venv/bin/python -m pytest -q -p no:cacheprovider 2>&1 | tail -1" % (repo, repo))
+        res["suite"] = t.stdout.strip()
+        res["demo_mutant_rc"] = demo_rc(repo)
+    finally:
+        fcntl.flock(lk, fcntl.LOCK_UN)
+    fcntl.flock(lk, fcntl.LOCK_SH)
     res["checks"] = {}
     for c in checks:
         t0 = time.time()
